@@ -650,23 +650,23 @@ Lemma bad_sizes_256 : filter (fun N => negb (size_ok (Z.of_nat N))) (seq 1 256) 
 Proof. vm_compute. reflexivity. Qed.
 
 (** whole-vector statements *)
-Lemma wsum_flags_ext w p t f g : (forall j q, (j < p)%nat -> f j q = g j q) -> wsum_flags w p t f = wsum_flags w p t g.
+Lemma wsum_flags_ext w p t f g : (forall j q, (j < p)%nat -> (q < t)%nat -> f j q = g j q) -> wsum_flags w p t f = wsum_flags w p t g.
 Proof.
-  intros H. unfold wsum_flags. apply map_ext. intros q. unfold sumf. f_equal. apply map_ext_in. intros j Hj. apply in_seq in Hj. rewrite H by lia. reflexivity.
+  intros H. unfold wsum_flags. apply map_ext_in. intros q Hq. apply in_seq in Hq. unfold sumf. f_equal. apply map_ext_in. intros j Hj. apply in_seq in Hj. rewrite H by lia. reflexivity.
 Qed.
 Definition geno_ok (ploidy : Z) (G : list (list Z)) (s : list nat) (p : nat) : Prop :=
   forall j, (j < p)%nat -> 0 <= acount G s j <= popsize ploidy s.
 Lemma mogs_pau_exact pl G w tf p t s : 1 <= popsize pl s <= 1024 -> size_ok (popsize pl s) = true -> geno_ok pl G s p ->
   mogs_pau_code pl G w tf p t s = pau_def pl G w tf p t s.
 Proof.
-  intros HN Hs Hg. unfold mogs_pau_code, pau_def. apply wsum_flags_ext. intros j q Hj. unfold pfreq_f.
+  intros HN Hs Hg. unfold mogs_pau_code, pau_def. apply wsum_flags_ext. intros j q Hj Hq. unfold pfreq_f.
   apply mogs_flag_exact; [exact HN | apply Hg, Hj | exact Hs].
 Qed.
-Definition targets_het (tf : list (list Q)) (p t : nat) : Prop := forall j q, (j < p)%nat -> t_het (mget tf j q) = true.
+Definition targets_het (tf : list (list Q)) (p t : nat) : Prop := forall j q, (j < p)%nat -> (q < t)%nat -> t_het (mget tf j q) = true.
 Lemma pau_partial pl G w tf p t s : 1 <= popsize pl s <= 1024 -> size_ok (popsize pl s) = true -> geno_ok pl G s p -> targets_het tf p t ->
   pau_code pl G w tf p t s = pau_def pl G w tf p t s.
 Proof.
-  intros HN Hs Hg Ht. unfold pau_code, pau_def. apply wsum_flags_ext. intros j q Hj. unfold pfreq_f.
-  apply pau_flag_partial; [exact HN | apply Hg, Hj | exact Hs | apply Ht, Hj].
+  intros HN Hs Hg Ht. unfold pau_code, pau_def. apply wsum_flags_ext. intros j q Hj Hq. unfold pfreq_f.
+  apply pau_flag_partial; [exact HN | apply Hg, Hj | exact Hs | apply Ht; assumption].
 Qed.
 Local Close Scope Z_scope.
